@@ -52,12 +52,25 @@ def sub {n m : Nat} (A B : Mat n m) : Mat n m := fun i j => A i j - B i j
 /-- the entries in row-major order -/
 def entries {n m : Nat} (A : Mat n m) : List GQ :=
   (List.finRange n).flatMap (fun i => (List.finRange m).map (fun j => A i j))
+end Mat
+
+/-- A materialised matrix: its row-major entries in an array.  (A `Mat` is a function; a definition
+returning one is compiled in eta-expanded form, so "let U := ..." would re-evaluate the whole
+expression at every entry access.  The driver therefore holds `Dense` VALUES and reads them through
+`Dense.get`.) -/
+structure Dense (n m : Nat) where
+  data : Array GQ
+
+def Dense.get {n m : Nat} (d : Dense n m) : Mat n m :=
+  fun i j => d.data.getD (i.val * m + j.val) 0
+
+/-- evaluate every entry once -/
+def Mat.freeze {n m : Nat} (A : Mat n m) : Dense n m := ⟨A.entries.toArray⟩
+
 /-- read a matrix from its row-major entry list (missing entries are 0) -/
-def ofList (n m : Nat) (l : List GQ) : Mat n m :=
-  let a := l.toArray
-  fun i j => a.getD (i.val * m + j.val) 0
-/-- evaluate every entry once (the driver materialises products before reusing them) -/
-def force {n m : Nat} (A : Mat n m) : Mat n m := ofList n m A.entries
+def Dense.ofList (n m : Nat) (l : List GQ) : Dense n m := ⟨l.toArray⟩
+
+namespace Mat
 end Mat
 
 end BqVerif.NumC19
